@@ -351,6 +351,17 @@ static void call_ldperm(char *args)
 }
 
 /* ------------------------------------------------------------------ readers (C16) */
+/* expected content of the file about to be read (echoed into the trace; values go through the same conversion to the
+ * arithmetic type as any caller data) */
+static int EXn = -1; static long EXnnz; static int *EXi, *EXj; static val_t *EXv;
+static void cmd_expect(char *s)
+{
+    EXn = (int)rdint(&s); EXnnz = rdint(&s);
+    free(EXi); free(EXj); free(EXv);
+    EXi = malloc((EXnnz + 1) * sizeof(int)); EXj = malloc((EXnnz + 1) * sizeof(int)); EXv = malloc((EXnnz + 1) * sizeof(val_t));
+    char *p = nextline();
+    for (long k = 0; k < EXnnz; k++) { EXi[k] = (int)rdint(&p); EXj[k] = (int)rdint(&p); double re = rdnum(&p), im = 0; if (NCOMP == 2) im = rdnum(&p); MKVAL(EXv[k], re, im); }
+}
 static void call_read(char *args)
 {
     char fmt[16], path[512]; if (sscanf(args, "%15s %511s", fmt, path) < 2) return;
@@ -367,15 +378,20 @@ static void call_read(char *args)
 #ifdef T_D
         else if (!strcmp(fmt, "triple_noheader")) dreadtriple_noheader(&m, &n, &nnz, &a, &asub, &xa);   /* EXAMPLE/dreadtriple_noheader.c */
 #endif
-        fflush(stdin); dup2(saved, 0); close(saved);
+        dup2(saved, 0); close(saved);
     }
-    fclose(fp);
+    if (strcmp(fmt, "hb") && strcmp(fmt, "rb")) fclose(fp);     /* ?readhb / ?readrb close the stream themselves */
     fprintf(OUT, "{\"e\":\"Ret\",\"id\":\"%s\",\"fn\":\"read\",\"ty\":\"" TYCH "\",\"fmt\":\"%s\",\"m\":%d,\"n\":%d,\"nnz\":%lld", g_id, fmt, m, n, (long long)nnz);
     if (n >= 0 && n < 5000 && nnz >= 0 && nnz < 100000 && xa && asub && a) {
         jintts("colptr", xa, n + 1);
         long used = xa[n] >= 0 && xa[n] <= nnz ? xa[n] : 0;
         jintts("rowind", asub, used); jvals("nzval", a, used);
         fprintf(OUT, ",\"alloc\":{\"nzval\":%ld,\"rowind\":%ld,\"colptr\":%ld}", (long)(slu_v_block_size(a) / sizeof(val_t)), (long)(slu_v_block_size(asub) / sizeof(int_t)), (long)(slu_v_block_size(xa) / sizeof(int_t)));
+    }
+    if (EXn >= 0) {
+        fprintf(OUT, ",\"expect_n\":%d,\"expect\":[", EXn);
+        for (long k = 0; k < EXnnz; k++) { fprintf(OUT, "%s[%d,%d,", k ? "," : "", EXi[k], EXj[k]); jval(EXv[k]); fputc(']', OUT); }
+        fputc(']', OUT);
     }
     own(a); own(asub); own(xa);
     ctx_t tmp; memset(&tmp, 0, sizeof tmp); tmp.ledger_mark = mark; ledger_json(&tmp);
@@ -435,6 +451,7 @@ static int extra_cmd(const char *cmd, char *rest)
     if (!strcmp(cmd, "vecx")) { vec_set(&VX, rest); return 1; }
     if (!strcmp(cmd, "vecy")) { vec_set(&VY, rest); return 1; }
     if (!strcmp(cmd, "vecc")) { vec_set(&VC, rest); return 1; }
+    if (!strcmp(cmd, "expect")) { cmd_expect(rest); return 1; }
     if (!strcmp(cmd, "seteq")) { char q[4]; if (sscanf(rest, "%3s", q) == 1) cx->equed[0] = q[0]; return 1; }
     return 0;
 }
